@@ -476,7 +476,9 @@ class XPathContext:
             if self.document is not None or self.item is not self.root:
                 item = self.item
 
-                if item.parent is not None:
+                if isinstance(item, (AttributeNode, NamespaceNode)):
+                    pass  # attribute and namespace nodes have no siblings
+                elif item.parent is not None:
                     status = self.item, self.axis
                     self.axis = axis or 'following-sibling'
 
@@ -556,6 +558,8 @@ class XPathContext:
                 if (root := item.parent) is not None:
                     status = self.item, self.axis
                     self.axis = 'preceding'
+                    if isinstance(item, (AttributeNode, NamespaceNode)):
+                        item = root  # the nodes that precede an attribute precede its element
                     ancestors = {root}
 
                     while root.parent is not None:
@@ -574,15 +578,20 @@ class XPathContext:
 
     def iter_followings(self) -> Iterator[ta.ChildNodeType]:
         """Iterator for 'following' forward axis."""
-        if isinstance(self.item, ElementNode):
+        if isinstance(self.item, XPathNode) and \
+                not isinstance(self.item, (DocumentNode, AttributeNode, NamespaceNode)):
             status = self.item, self.axis
             self.axis = 'following'
 
-            descendants = set(self.item.iter_descendants())
+            descendants: set[Any]
+            if isinstance(self.item, ElementNode):
+                descendants = set(self.item.iter_descendants())
+            else:
+                descendants = set()
             position = self.item.position
 
-            root = self.item
-            while isinstance(root.parent, ElementNode) and root is not self.root:
+            root: Any = self.item
+            while root.parent is not None and root is not self.root:
                 root = root.parent
 
             for item in root.iter_descendants(with_self=False):
